@@ -69,6 +69,18 @@ def handle (line : String) : String :=
     match parseCmp c, parseInt x, parseInt y with
     | some o, some a, some b => showBool (compare o a b)
     | _, _, _ => "bad-op"
+  | [_, "ship", x, y] =>
+    match parseInt x, parseInt y with
+    | some a, some b => toString (spaceship a b)
+    | _, _ => "bad-op"
+  | [_, "dship", word, k, x, y] =>
+    match parseNat word, parseKind k, parseInt x, parseInt y with
+    | some w, some kk, some a, some b => showVerdict (declShipTyped w kk a b)
+    | _, _, _, _ => "bad-op"
+  | [_, "rship", bits, sg, x, y] =>
+    match ity? bits sg, parseInt x, parseInt y with
+    | some t, some a, some b => s!"ok {runShip t a b}"
+    | _, _, _ => "bad-op"
   | [_, "ratint", n, d] =>
     match parseInt n, parseInt d with
     | some a, some b => showCRes (toIntRat a b)
